@@ -463,7 +463,8 @@ func (p *pcase) commit(k int, mid bool) string {
 	p.arm(k, mid)
 	crashed, pv := p.protect(func() {
 		p.tick()
-		p.pvH = h // the validator's votes for h: signed (privval) and logged (WAL)
+		p.pvH = h // the validator's prevote for h: signed (privval) and logged (WAL)
+		p.tick()  // ... and its precommit
 		if p.blockStore.Height() < block.Height {
 			p.tick()
 			p.blockStore.SaveBlock(block, ps, p.cd.commits[bi])
